@@ -7,12 +7,37 @@ Open Scope Z_scope.
 
 Definition pair_leb (a b : Z * Z) : bool :=
   (fst a <? fst b) || ((fst a =? fst b) && (snd a <=? snd b)).
-Fixpoint pinsert (x : Z * Z) (l : list (Z * Z)) : list (Z * Z) :=
-  match l with
-  | [] => [x]
-  | y :: r => if pair_leb x y then x :: l else y :: pinsert x r
-  end.
-Definition psort (l : list (Z * Z)) : list (Z * Z) := fold_right pinsert [] l.
+
+Section MergeSort.
+  Context {A : Type}.
+  Variable leb : A -> A -> bool.
+  Fixpoint merge (l1 l2 : list A) {struct l1} : list A :=
+    let fix merge_aux (l2 : list A) : list A :=
+      match l1, l2 with
+      | [], _ => l2
+      | _, [] => l1
+      | a1 :: l1', a2 :: l2' => if leb a1 a2 then a1 :: merge l1' l2 else a2 :: merge_aux l2'
+      end
+    in merge_aux l2.
+  Fixpoint halve (l : list A) : list A * list A :=
+    match l with
+    | a :: b :: r => let '(x, y) := halve r in (a :: x, b :: y)
+    | _ => (l, [])
+    end.
+  Fixpoint msort_fuel (fuel : nat) (l : list A) : list A :=
+    match fuel with
+    | O => l
+    | S f => match l with
+             | [] | [_] => l
+             | _ => let '(x, y) := halve l in merge (msort_fuel f x) (msort_fuel f y)
+             end
+    end.
+  Definition msort (l : list A) : list A := msort_fuel (length l) l.
+End MergeSort.
+
+Definition psort (l : list (Z * Z)) : list (Z * Z) := msort pair_leb l.
+(** the runner sorts with merge sort; the model's [zsort] (insertion sort) yields the same list *)
+Definition zsortf (l : list Z) : list Z := msort Z.leb l.
 
 Fixpoint kinsert {A} (x : Z * A) (l : list (Z * A)) : list (Z * A) :=
   match l with
